@@ -41,6 +41,28 @@ package main
 //   strconv.Atoi(s) ↦ strconvAtoi s; c.Query("k") ↦ ginQuery c "k"; c.DefaultQuery("k", d) ↦ ginDefaultQuery c "k" d;
 //   http.StatusOK ↦ 200; method calls along the wiring table mrWiring (r.db.X ↦ HeadersDb.X, ms.repo.Headers.X ↦
 //   HeaderRepository.X, h.service.X ↦ MerklerootsService.X: the production wiring of the interfaces, trusted).
+// MODULE Confirmations (property C02): the same translator started at (*MerklerootsService).GetMerkleRootsConfirmations —
+//   service/merkleroots_service.go → database/repository/header_repository.go GetMerkleRootsConfirmations →
+//   repository/dto/headers.go ConvertToMerkleRootsConfirmations, (*DbMerkleRootConfirmation).ToMerkleRootConfirmation →
+//   database/sql/headers.go (*HeadersDb).GetMerkleRootsConfirmations, getMerkleRootConfirmation, getChainTipHeight
+//   (vocabulary lean/BHS/Model/MerkleRootsCore.lean + ConfirmationsPrim.lean; theorems lean/BHS/Props/ConfirmationsGen.lean).
+//   Additions to the subset used there:
+//   statements   `continue` inside a range loop (ends the body with the loop state); `var x T` for int32, sql.NullString,
+//                domains.MerkleRootConfirmationState (Go zero values); a `:=` that shadows a variable of an enclosing scope
+//                gets a fresh Lean name (x', x'', …); `xs = append(xs, x)`; if/else-if/else chains assigning a variable.
+//                `return`, `break`, goto, defer, ++/-- inside a loop, maps, string concatenation, strconv.*: unsupported.
+//   expressions  int vs int32 are distinct kinds (untyped constants adapt; they do not mix without a conversion);
+//                int32 `+`/`-` wrap around (toInt32), `int32(x)` ↦ toInt32 x, `int(x)` ↦ x; `&&`/`||` whose RIGHT operand
+//                can fault are rendered with the monadic short-circuit `<&&>`/`<||>` (evaluated only when needed);
+//                `make([]*T, 0)` ↦ []; `append(xs, x)` ↦ xs ++ [x]; typed string constants of package domains
+//                (Confirmed, UnableToVerify, Invalid): the VALUE is read from the declaration;
+//                <recv>.merkleCfg.MaxBlockHeightExcess ↦ the parameter excess_; calls of plain functions of the table
+//                mrPkgFuncs and of methods on data values (table mrDataRecv: the receiver becomes the first argument).
+//   types        sql.NullString ↦ Option H (.Valid ↦ isSome, .String ↦ the option); *dto.DbMerkleRootConfirmation,
+//                *domains.MerkleRootConfirmation ↦ Option of a structure, slices of them ↦ List (Option …);
+//                domains.MerkleRootConfirmationRequestItem ↦ ReqItem H.
+//   primitives   sqlTipOfChainHeight (Get into an int32) ↦ dbGet_sqlTipOfChainHeight (maxLcHeight; NULL = scan error),
+//                sqlVerifyHash (Get into a NullString) ↦ dbGet_sqlVerifyHash (verifyHash).
 // EFFECT LIST  bhserrors.ErrorResponse(c, e, <recv>.log) ↦ c := errorResponse c e;  c.JSON(st, v) ↦ c := ginJSON c st v
 // SKIP LIST    <recv>.log.<Level>().Msg/Msgf(…) with side-effect-free arguments (identifiers, literals, selectors).
 
